@@ -47,13 +47,13 @@ ASSUMPTIONS = ["allocator behaviour depends on sizes only through the page-size 
                "the installed VmMngr extension records pages faithfully (container only)"]
 
 SIZES = [0, 1, 0xFFF, 0x1000, 0x1001]
-SEEDS = ["win", "linux"]
+SEEDS = ["win", "linux", "win-align16"]   # win-align16: the same entry points on a heap configured with align = 0x10
 RET = 0x1337
 WIN_FREE_HINT = 0x30000000
 LIN_FREE_HINT = 0x76000000
 MAP_FIXED = 0x10
 MAP_ANON_PRIV = 0x22
-DEPTH = {"quick": {"win": 4, "linux": 3}, "thorough": {"win": 6, "linux": 4}}
+DEPTH = {"quick": {"win": 4, "linux": 3, "win-align16": 3}, "thorough": {"win": 6, "linux": 4, "win-align16": 5}}
 
 _TIER = {"tier": "quick"}
 _JIT = []
@@ -125,13 +125,15 @@ def make(seed):
     st.last = ("init",)
     st.live = []          # dicts addr, size, api
     st.pages = None
-    if seed == "win":
+    if seed.startswith("win"):
         jit = _jitter()
         from miasm.os_dep.common import heap
         import miasm.os_dep.win_api_x86_32 as winapi
         jit.vm.reset_memory_page_pool()
         jit.init_stack()
         winapi.winobjs.heap = heap()
+        if seed == "win-align16":
+            winapi.winobjs.heap.align = 0x10
         winapi.winobjs.allocated_pages = {}
         st.jit, st.vm, st.winapi, st.heap = jit, jit.vm, winapi, winapi.winobjs.heap
     else:
@@ -265,7 +267,7 @@ def events(st):
         return []
     evs = []
     quick = _TIER["tier"] == "quick"
-    if st.seed == "win":
+    if st.seed.startswith("win"):
         for api in ("heap.alloc", "heap.vm_alloc", "HeapAlloc", "malloc"):
             for n in SIZES:
                 evs.append((api, n))
@@ -426,7 +428,7 @@ def invariant(st):
 
 
 def canon(st):
-    if st.seed == "win":
+    if st.seed.startswith("win"):
         cur = (st.heap.addr,)
     else:
         cur = (st.env.brk_current, st.env.mmap_current, st.brk_cur)
